@@ -1,10 +1,12 @@
 import OdakModel.Exec.OpsIndex
 import OdakModel.Exec.OpsWave
 import OdakModel.Exec.OpsGeom
+import OdakModel.Exec.OpsPolar
+import OdakModel.Exec.OpsRay
 /-! `odakdrv`: reads one operation per line on stdin, prints the model's answer per line. -/
 namespace Odak.Exec
 
-def allOps : List (String × Handler) := opsIndex ++ opsWave ++ opsRot
+def allOps : List (String × Handler) := opsIndex ++ opsWave ++ opsRot ++ opsPolar ++ opsRay
 
 def step (line : String) : String :=
   match (line.trimAscii.toString.splitOn " ").filter (· ≠ "") with
